@@ -15,6 +15,20 @@ root = os.path.dirname(os.path.dirname(os.path.abspath(__file__)))
 tmpl = open("/tmp/seedout/PROMPT_TEMPLATE.txt").read() if os.path.exists("/tmp/seedout/PROMPT_TEMPLATE.txt") else open(os.path.join(root, "tools/SEED_PROMPT_TEMPLATE.txt")).read()
 
 EMPH = {
+    "10": ("This is the tenth round. Prefer changes of these kinds, which earlier rounds under-used: "
+          "(a) results that cross a layer boundary: a function that reports (value, ok) / (n, err) and now says ok for a partial result, a caller that stops looking at a returned flag, "
+          "an error that is logged instead of returned - the callee stays right, the CALLER now acts on something slightly wrong in one situation; "
+          "(b) the order of 'tell others' and 'update myself': a callback / notification / reply issued before the state change it announces (or after a state change it should precede), "
+          "so that a re-entrant or immediately following operation sees the old state; "
+          "(c) the second life of an identity: remove-then-add of the same name / face / neighbour / version / sequence, re-registration after expiry, an id or token reused after its owner went away, "
+          "a restart that continues from a counter which should restart (or the reverse); "
+          "(d) long jumps in time: the clock advances by many periods in ONE step (several deadlines, several heartbeat intervals, refresh and expiry due at once) and a loop handles only the first, "
+          "re-arms from the wrong base, or processes them in the wrong order; "
+          "(e) partial failure among several: one of N next hops / faces / segments / neighbours / commands fails or is absent and the handling of the REST changes (stops early, skips the successor, double-counts); "
+          "(f) estimates vs actuals: a size / length / count computed ahead of time that differs from the real one only for one shape (a shorter signature, a longer length field, a slice that grew past its capacity "
+          "and stopped aliasing - or started to); "
+          "(g) identity vs equality: comparison by pointer where by value is needed (or the reverse), a shallow copy where a deep one is needed, a map keyed by something that is equal for two different things "
+          "(or different for two equal things) in one rare shape. "),
     "9": ("This is the ninth round. Prefer changes of these kinds, which earlier rounds under-used: "
           "(a) iteration while mutating: removing from a slice or map while ranging over it, an index that is not adjusted after a deletion, swap-with-last removal that skips the "
           "swapped-in element, a loop that stops after the first match where two ADJACENT elements qualify - visible only when two qualifying items sit next to each other; "
